@@ -3,6 +3,9 @@
 from __future__ import annotations
 
 import asyncio
+import os
+import signal
+import threading
 import warnings
 from typing import Any, Callable
 
@@ -115,9 +118,38 @@ class Outcome:
         return ["err", self.err_class, safe_str(self.exc)[:200]]
 
 
+CALL_CPU_S = float(os.environ.get("VERIF_CALL_CPU_S", "40"))
+
+
+class _cpu_guard:
+    """Process-CPU bound (ITIMER_VIRTUAL: independent of machine load) around one call into the library; main thread only, and only
+    when no other virtual timer is running (C09 owns its own)."""
+
+    def __enter__(self):
+        self.armed = False
+        if threading.current_thread() is threading.main_thread() and signal.getitimer(signal.ITIMER_VIRTUAL)[0] == 0:
+            self.old = signal.signal(signal.SIGVTALRM, self._fire)
+            signal.setitimer(signal.ITIMER_VIRTUAL, CALL_CPU_S)
+            self.armed = True
+        return self
+
+    @staticmethod
+    def _fire(signum, frame):
+        from harness import core
+
+        raise core.WorkloadTooHeavy(f"one library call used more than {CALL_CPU_S:.0f}s of CPU")
+
+    def __exit__(self, *exc):
+        if self.armed:
+            signal.setitimer(signal.ITIMER_VIRTUAL, 0)
+            signal.signal(signal.SIGVTALRM, self.old)
+        return False
+
+
 def call(fn: Callable[..., Any], *a: Any, **k: Any) -> Outcome:
     try:
-        return Outcome(True, fn(*a, **k))
+        with _cpu_guard():
+            return Outcome(True, fn(*a, **k))
     except Exception as e:  # noqa: BLE001 - the boundary recorder must see everything
         return Outcome(False, exc=e)
 
@@ -149,10 +181,15 @@ atexit.register(_close_loop)
 
 
 def call_async(fn: Callable[..., Any], *a: Any, **k: Any) -> Outcome:
+    global _loop
     try:
-        return Outcome(True, loop().run_until_complete(fn(*a, **k)))
+        with _cpu_guard():
+            return Outcome(True, loop().run_until_complete(fn(*a, **k)))
     except Exception as e:  # noqa: BLE001
         return Outcome(False, exc=e)
+    except BaseException:
+        _loop = None  # the abandoned coroutine must not be resumed by the next call: start over with a fresh loop
+        raise
 
 
 def parse(env: Environment, source: str, **kw: Any) -> Outcome:
